@@ -27,9 +27,33 @@ def ident(k):
 
 
 class Rig:
-	""" One or two senders and one listening peer on vnet. """
+	""" One or two senders and one listening peer on vnet; or the real fake_trx.Application with
+	    four transceivers, ticked through its own clck_handler. """
 
-	def __init__(self, seed, two_senders = False, lock_sched = None):
+	def __init__(self, seed, two_senders = False, lock_sched = None, app = False):
+		self.aw = None
+		self.peer = 1
+		self.bystanders = []
+		if app:
+			# list order: BTS (listening peer), MS (bystander, tuned elsewhere), a child of the BTS and an
+			# additional transceiver (the senders): whatever the bystander does must not matter
+			self.aw = sim.AppWorld(["-b", "127.0.0.1", "--trx", "127.0.0.1:5700/1", "--trx", "127.0.0.1:7700"], seed = seed)
+			self.bench = radio.Bench.from_app(self.aw)
+			b = self.bench
+			plan = [(935000, 890000), (947000, 902000), (890000, 935000), (890000, 935000)]
+			for i, (rx, tx) in enumerate(plan):
+				b.cmd(i, "RXTUNE %d" % rx)
+				b.cmd(i, "TXTUNE %d" % tx)
+			for i in (0, 1, 3):
+				b.cmd(i, "POWERON")       # the child is powered with its parent
+			self.peer = 0
+			self.senders = [2, 3]
+			self.bystanders = [1]
+			self.log = self.aw.log
+			self.log.take()
+			self.next_id = 0
+			self.bursts = {}
+			return
 		specs = [{"base_port": 5700, "name": "S"}, {"base_port": 6700, "name": "P"}]
 		if two_senders:
 			specs.append({"base_port": 7700, "name": "S2"})
@@ -59,7 +83,7 @@ class Rig:
 	def emitted(self):
 		""" ids (from the burst bits) delivered to the peer since the last call """
 		out = []
-		for d in self.bench.nodes[1].rx_data():
+		for d in self.bench.nodes[self.peer].rx_data():
 			try:
 				dd = trxd.decode(d, "rx")
 			except ValueError:
@@ -161,7 +185,16 @@ def check_tick(ctx, rig, model, now, hist, sub, extra_allowed = None):
 
 def sequential(ctx, r, idx):
 	two = r.random() < 0.3
-	rig = Rig(r.getrandbits(30), two)
+	use_app = r.random() < 0.25
+	rig = Rig(r.getrandbits(30), two, app = use_app)
+	try:
+		_sequential(ctx, r, idx, rig)
+	finally:
+		if rig.aw is not None:
+			rig.aw.shutdown()
+
+
+def _sequential(ctx, r, idx, rig):
 	b = rig.bench
 	model = Model()
 	hist = []
@@ -212,9 +245,14 @@ def sequential(ctx, r, idx):
 			s = r.choice(rig.senders)
 			st, mst = b.cmd(s, "POWERON")
 			hist.append("POWERON %s -> %d" % (b.models[s].name, st))
+		elif x < 0.985 and rig.bystanders:
+			j = r.choice(rig.bystanders)
+			c = r.choice(("POWEROFF", "POWERON"))
+			b.cmd(j, c)
+			hist.append("%s %s (bystander)" % (c, b.models[j].name))
 		else:
 			s = r.choice(rig.senders)
-			v = r.choice((0, 1))
+			v = r.choice((0, 1, 0, 1, 2, 3, 15))     # also versions that are only answered with a suggestion
 			b.cmd(s, "SETFORMAT %d" % v)
 			hist.append("SETFORMAT %s %d" % (b.models[s].name, v))
 		ctx.seen(hash((ctx.shard[0], idx, step)))
@@ -240,6 +278,8 @@ def sequential(ctx, r, idx):
 				fail(err)
 				return
 	ctx.count("histories")
+	if rig.aw is not None:
+		ctx.count("histories_through_application")
 	if idx < 2:
 		ctx.sample("history", hist[:14])
 
@@ -525,6 +565,7 @@ def run(ctx):
 	ctx.require("distinct_schedules", 200)
 	ctx.require("schedules_with_lock_contention", 5)
 	ctx.require("real_thread_races", 200)
+	ctx.require("histories_through_application", 30)
 
 
 def replay(ctx, data):
